@@ -20,6 +20,7 @@ type plan struct {
 	Name        string
 	Mode        string
 	CreateFiles bool
+	CreateAt    int64 // unix time of the create operation (0: default)
 	Alphabet    []Sym
 	L           int
 	ForceAll    bool // incremental: force the snapshot after every position 0..len-1 (else only before the appends)
@@ -39,9 +40,9 @@ func plans(tier string, lOverride int) []plan {
 		}
 		return false
 	})
-	lf, li, lia, lir, ls, lm := 4, 3, 3, 4, 3, 4
+	lf, li, lia, lir, ls, lm, lt := 4, 3, 3, 4, 3, 4, 4
 	if tier == "thorough" {
-		li, lir, lm = 4, 5, 5
+		li, lir, lm, lt = 4, 5, 5, 5
 	}
 	if lOverride > 0 {
 		lf = lOverride
@@ -63,6 +64,15 @@ func plans(tier string, lOverride int) []plan {
 		plan{Name: "incremental, reduced API-expressible alphabet, deeper", Mode: "incremental", Alphabet: redInc, L: lir},
 		plan{Name: "metadata values {\"\",v1,v2} x keys {k1,k2} x targets {create, comment, comment carrying k1 itself}: full compile, then commit and reload", Mode: "reload", Alphabet: MetaAlphabet(), L: lm},
 		plan{Name: "metadata values: incremental (cache.BugCache), snapshot forced after every position", Mode: "incremental", Alphabet: MetaAlphabet(), L: lm, ForceAll: true},
+	)
+	// timestamps independent of the position: later-but-older operations
+	ta := TimeAlphabet()
+	ps = append(ps,
+		plan{Name: "timestamps {T-10,T,T+10} on comment/edit/title/status/label operations, create@T: full compile, then commit and reload", Mode: "reload", CreateAt: timeBase, Alphabet: ta, L: lt},
+		plan{Name: "timestamps, create@T+10: full compile, then commit and reload", Mode: "reload", CreateAt: timeBase + 10, Alphabet: ta, L: lt - 1},
+		plan{Name: "timestamps, create@T-10: full compile, then commit and reload", Mode: "reload", CreateAt: timeBase - 10, Alphabet: ta, L: lt - 1},
+		plan{Name: "timestamps, create@T: incremental (cache.BugCache), snapshot forced before the appends", Mode: "incremental", CreateAt: timeBase, Alphabet: ta, L: 4},
+		plan{Name: "timestamps, create@T+10: incremental, snapshot forced after every position", Mode: "incremental", CreateAt: timeBase + 10, Alphabet: ta, L: 3, ForceAll: true},
 	)
 	return ps
 }
@@ -184,7 +194,7 @@ func (x *explorer) visit(seq []Sym, l *local) {
 	}
 	outcome := ""
 	for _, f := range forces {
-		res, err := x.env.Run(seq, x.p.CreateFiles, x.p.Mode, f)
+		res, err := x.env.Run(seq, x.p.CreateFiles, x.p.Mode, f, x.p.CreateAt)
 		if err != nil {
 			l.errs = append(l.errs, fmt.Sprintf("[%s] %s: %v", x.p.Name, seqString(symNames(seq)), err))
 			return
@@ -211,6 +221,9 @@ func (x *explorer) visit(seq []Sym, l *local) {
 			if e.MetaRefused > 0 {
 				l.exercised["sequences where later metadata must not override an existing key"]++
 			}
+			if e.OlderLaterEdits > 0 {
+				l.exercised["sequences where a comment's latest edit (operation order) carries an older timestamp than an earlier version"]++
+			}
 			if e.MetaEmptyKept > 0 {
 				l.exercised["sequences where a key holding the empty value must keep it against a later set-metadata"]++
 			}
@@ -232,7 +245,7 @@ func (x *explorer) visit(seq []Sym, l *local) {
 		}
 		for _, fd := range res.Found {
 			k := fd.Oracle + "|" + fd.Sig
-			c := Case{Mode: x.p.Mode, CreateFiles: x.p.CreateFiles, ForceAt: f, Seq: symNames(seq)}
+			c := Case{Mode: x.p.Mode, CreateFiles: x.p.CreateFiles, ForceAt: f, CreateAt: x.p.CreateAt, Seq: symNames(seq)}
 			if h, ok := l.hits[k]; ok {
 				h.count++
 				if caseLess(c, h.c) {
@@ -291,7 +304,7 @@ func explore(env *Env, p plan, st *stats, deadline time.Time) (complete bool) {
 			return
 		}
 		// is the prefix itself buildable? (judged already; here only to decide whether to descend)
-		res, err := env.Run(seq, p.CreateFiles, p.Mode, 0)
+		res, err := env.Run(seq, p.CreateFiles, p.Mode, 0, p.CreateAt)
 		if err != nil || res.Outcome != Built {
 			return
 		}
@@ -313,7 +326,7 @@ func Reproductions(env *Env, c Case, oracle, sig string, n int) int {
 	}
 	cnt := 0
 	for i := 0; i < n; i++ {
-		res, err := env.Run(syms, c.CreateFiles, c.Mode, c.ForceAt)
+		res, err := env.Run(syms, c.CreateFiles, c.Mode, c.ForceAt, c.CreateAt)
 		if err != nil {
 			continue
 		}
@@ -398,7 +411,7 @@ func Main(args []string) {
 		h := st.hits[k]
 		n := Reproductions(env, h.c, h.found.Oracle, h.found.Sig, 5)
 		rep.Report(evidence.Report{Oracle: h.found.Oracle, Sig: h.found.Sig,
-			Detail: fmt.Sprintf("create%s ; %s (mode %s, snapshot forced after %d): %s (reproduced %d/5)", map[bool]string{true: "+files", false: ""}[h.c.CreateFiles], seqString(h.c.Seq), h.c.Mode, h.c.ForceAt, h.found.Detail, n),
+			Detail: fmt.Sprintf("create%s ; %s (mode %s, snapshot forced after %d): %s (reproduced %d/5)", map[bool]string{true: "+files", false: ""}[h.c.CreateFiles]+createAtString(h.c.CreateAt), seqString(h.c.Seq), h.c.Mode, h.c.ForceAt, h.found.Detail, n),
 			Replay: map[string]any{"case": h.c, "reproduced_of_5": n}, Count: h.count})
 	}
 	cov := map[string]any{
@@ -430,6 +443,13 @@ func Main(args []string) {
 	rep.Exit()
 }
 
+func createAtString(t int64) string {
+	if t == 0 {
+		return ""
+	}
+	return fmt.Sprintf("@T%+d", t-timeBase)
+}
+
 func intKeys(m map[int]int64) map[string]int64 {
 	out := map[string]int64{}
 	for k, v := range m {
@@ -445,12 +465,13 @@ func samples(env *Env) []any {
 		{Mode: "full", Seq: []string{"force(+b+a)/A", "force(+c)/B", "change(-a)/A", "edit(create)/B"}},
 		{Mode: "full", Seq: []string{"add-comment/B", "edit(comment1)/A", "edit(unknown)/A", "set-metadata(create,o)/A"}},
 		{Mode: "incremental", Seq: []string{"set-metadata(create,x)/A", "set-metadata(create,x)/B", "close/B"}},
+		{Mode: "reload", CreateAt: timeBase, Seq: []string{"add-comment@T+10/A", "edit(comment1)@T+0/A", "edit(comment1)@T-10/A", "set-title@T-10/A"}},
 	} {
 		syms, err := lookup(c.Seq)
 		if err != nil {
 			continue
 		}
-		res, err := env.Run(syms, c.CreateFiles, c.Mode, c.ForceAt)
+		res, err := env.Run(syms, c.CreateFiles, c.Mode, c.ForceAt, c.CreateAt)
 		if err != nil {
 			continue
 		}
@@ -493,12 +514,12 @@ func Replay(env *Env, path string) int {
 		return 2
 	}
 	c := f.Replay.Case
-	res, err := env.Run(syms, c.CreateFiles, c.Mode, c.ForceAt)
+	res, err := env.Run(syms, c.CreateFiles, c.Mode, c.ForceAt, c.CreateAt)
 	if err != nil {
 		fmt.Fprintln(os.Stderr, "replay error:", err)
 		return 2
 	}
-	fmt.Printf("case: create%s ; %s (mode %s, force at %d): %s\n", map[bool]string{true: "+files", false: ""}[c.CreateFiles], seqString(c.Seq), c.Mode, c.ForceAt, res.Outcome)
+	fmt.Printf("case: create%s ; %s (mode %s, force at %d): %s\n", map[bool]string{true: "+files", false: ""}[c.CreateFiles]+createAtString(c.CreateAt), seqString(c.Seq), c.Mode, c.ForceAt, res.Outcome)
 	hitIt := false
 	for _, fd := range res.Found {
 		fmt.Printf("  violation %s|%s: %s\n", fd.Oracle, fd.Sig, fd.Detail)
